@@ -1,5 +1,6 @@
 import HapVerif.Drv.Common
 import HapVerif.Drv.C16
+import HapVerif.Drv.C13
 open HapVerif HapVerif.Drv
 
 /-- one case per line: `<PROP> <args...> => <implementation output>` -/
@@ -7,6 +8,7 @@ def dispatch (line : String) : String :=
   let (lhs, impl) := splitOn1 line " => "
   match words lhs with
   | "C16" :: args => (C16.handle args impl).render
+  | "C13" :: args => (C13.handle args impl).render
   | _ => (bad "unknown-property").render
 
 partial def loop (h : IO.FS.Stream) (out : IO.FS.Stream) : IO Unit := do
